@@ -232,7 +232,8 @@ fn finishblock_layout_bounded() {
     kani::cover!(payload[0] == 0xFF);
 }
 
-// ---------------------------------------------------------------- U-arraysum (C02): SUM over a chunk
+// ---------------------------------------------------------------- U-arraysum (C02): SUM over a
+// chunk
 
 /// SUM ignores NULL inputs and is NULL when there is no non-NULL input. `ArrayImpl::sum` is the
 /// chunk-at-a-time step used by ungrouped aggregation. Bounded: a 1-row and a 2-row Int32 array.
